@@ -643,13 +643,28 @@ func unconditionalInLoop(c *ssa.Call, o *origin) (bool, string) {
 	if hdr == nil {
 		return false, "no index-based range loop found for the element"
 	}
-	// the increment must be +1 from -1 (the rangeindex shape)
+	// the increment must be +1 from -1 (the rangeindex shape: the element index is phi+1), or +1 from 0 with the phi
+	// itself as element index and the loop running while it is below a length (for i := 0; i < len(xs); i++)
 	if ph, ok := cur.(*ssa.Phi); ok {
 		okShape := false
 		for i, e := range ph.Edges {
 			if !isBackEdge(ph.Block().Preds[i], ph.Block()) {
-				if k, ok := constInt(e); ok && k == -1 {
+				if k, ok := constInt(e); ok && k == -1 && o.idx != ssa.Value(ph) {
 					okShape = true
+				}
+				if k, ok := constInt(e); ok && k == 0 && o.idx == ssa.Value(ph) {
+					// the bound: the header leaves the loop exactly when phi >= len(..) / phi >= n
+					if iff, ok := hdr.Instrs[len(hdr.Instrs)-1].(*ssa.If); ok {
+						if lt, ok := iff.Cond.(*ssa.BinOp); ok && lt.Op == token.LSS && lenArg(lt.Y) != nil {
+							if lt.X == ssa.Value(ph) {
+								okShape = true
+							}
+							// rotated loop (for i := range n): the test follows the increment
+							if inc, ok := lt.X.(*ssa.BinOp); ok && inc.Op == token.ADD && inc.X == ssa.Value(ph) && isIntConst(inc.Y, 1) {
+								okShape = true
+							}
+						}
+					}
 				}
 			}
 		}
